@@ -253,9 +253,9 @@ def _find_hits(records, min_amplitude, min_height_over_noise, _result_buffer=Non
                 # Start of a hit
                 in_interval = True
                 hit_start = i
-                if x > height:
-                    max_time = r["time"] + i * r["dt"]
-                height = max(x, height)
+                # The first sample of the hit is its maximum so far, also if it is zero
+                max_time = r["time"] + i * r["dt"]
+                height = x
 
             if in_interval:
                 if not satisfy_threshold:
